@@ -12,7 +12,7 @@ EXPLANATION = ("each call compared with the Gallina model run on (name, value) p
                "Theorems C07_*_names: projecting the named run to values is the run on plain values, for ALL inputs.")
 ASSUMPTIONS = ["non-negative integers below 2^53; names are distinct"]
 CASE_TIMEOUT = 120
-PART = ["greedy", "roundrobin", "multifit", "kk", "cg", "ckk", "snp", "rnp", "dp", "ilp", "cbldm"]
+PART = ["greedy", "roundrobin", "bidir", "multifit", "kk", "cg", "ckk", "snp", "rnp", "dp", "ilp", "cbldm"]
 PACK = ["ff", "ffd", "bf", "bfd", "bc"]
 COVER = ["cover_dec", "cover_23", "cover_34"]
 _g = [0]
